@@ -368,8 +368,8 @@ fn handlers_part(rep: &Arc<Reporter>, args: &Args) {
                 // the verdict depends on whether the machine was able to run our tasks at all
                 let t0 = std::time::Instant::now();
                 let _ = tokio::time::timeout(Duration::from_secs(20), async { while !saw_end.load(Ordering::SeqCst) { tokio::time::sleep(Duration::from_millis(2)).await; } }).await;
-                let lag = { let t = std::time::Instant::now(); tokio::time::sleep(Duration::from_millis(20)).await; t.elapsed().as_millis() as u64 };
                 if !saw_end.load(Ordering::SeqCst) {
+                    let lag = { let t = std::time::Instant::now(); tokio::time::sleep(Duration::from_millis(20)).await; t.elapsed().as_millis() as u64 };
                     if lag > 500 { rep.inconclusive("handlers: client did not see its session end within 20 s on a machine with > 0.5 s scheduling lag"); }
                     else { let mut w2 = w.clone(); w2["waited_ms"] = json!(t0.elapsed().as_millis() as u64); rep.violation(&format!("{:?} client never saw its session end after shutdown", proto), w2); }
                 }
